@@ -158,9 +158,14 @@ def gen_edit(rng, p, kinds=None, hint=None, standalone=False):
                 return [[k, i, None], ["delDensity", i]]
             if M:
                 m = rng.randrange(len(M))
+                if c.material is not None and rng.random() < 0.25:
+                    # the material is replaced in two steps (void in between); the density is not touched
+                    return [[k, i, None], [k, i, m]]
                 out = [[k, i, m]]
                 if c.material is None:
-                    out.append([rng.choice(["atomDensity", "massDensity"]), i, ci.enc(_sf(rng))])
+                    den = [rng.choice(["atomDensity", "massDensity"]), i, ci.enc(_sf(rng))]
+                    # either order is a valid way to fill a void cell: the state in between is never written
+                    out = [den] + out if rng.random() < 0.4 else out + [den]
                 return out
         if k in ("atomDensity", "massDensity"):
             i = pick(i for i, c in enumerate(C) if c.material is not None)
